@@ -29,7 +29,7 @@ ENGINE = 'E2 bfs'
 LEVEL = 'model_checking'
 LEVEL_TEXT = (
     'Explicit-state breadth-first exploration of every statement history up to the stated depth '
-    'over an alphabet of up to 34 string statements (literal/concatenation/copy assignments in program '
+    'over an alphabet of up to 35 string statements (literal/concatenation/copy assignments in program '
     'and direct mode, MID$ and LSET/RSET statements, SWAP, array elements, ERASE/DIM, DEF FN calls, '
     'temporaries-only expressions, explicit collection, an over-long allocation), on real pcbasic '
     'Sessions whose memory is limited so that 12, 24, 40 or ~60000 bytes are free. States are merged '
@@ -124,12 +124,14 @@ OPS = [
     # built-in string functions whose first argument is a temporary while a later argument allocates
     ('left-temp-arg', 'D', b'A$=LEFT$(B$+C$(1),LEN(B$+"pq"))'),
     ('instr-temps', 'D', b'X=INSTR(B$+"u",C$(1)+"v")'),
+    # two concatenations joined by a comparison: the left result waits while the right one allocates
+    ('cmp-two-temps', 'D', b'IF B$+"uv"<C$(1)+B$ THEN A$="t" ELSE A$="f"'),
 ]
 LABELS = [o[0] for o in OPS]
 QUICK_OPS = [LABELS.index(l) for l in (
     'lit5-code', 'lit9-code', 'append-code', 'midset', 'lset', 'copy', 'concat-elem', 'swap', 'swap-elem',
     'elem-concat', 'erase', 'temps-only', 'fn-param-live', 'too-long', 'copy-elem-gc', 'elem0-chr', 'copy-elem0-gc',
-    'rset', 'expr-error', 'fn-num-after-temp', 'fn-two-temps', 'nested-concat', 'midset-temp', 'left-temp-arg')]
+    'rset', 'expr-error', 'fn-num-after-temp', 'fn-two-temps', 'nested-concat', 'midset-temp', 'left-temp-arg', 'cmp-two-temps')]
 
 # memory configurations: free bytes of the set-up session
 CONFIGS = {'f12': 12, 'f24': 24, 'f40': 40, 'big': None}
@@ -200,6 +202,10 @@ def ref_step(ref, label):
         t = b + c1
         n.a = t[:len(b) + 2]
         need += len(t) + len(b) + 2 + 2 + len(n.a)
+    elif label == 'cmp-two-temps':
+        c1 = elems()[1]
+        n.a = b't' if (b + b'uv') < (c1 + b) else b'f'
+        need += len(b) + 2 + 2 + len(c1) + len(b) + 1
     elif label == 'instr-temps':
         c1 = elems()[1]
         need += len(b) + 1 + 1 + len(c1) + 1 + 1
